@@ -26,11 +26,17 @@
   — only text `i` must be a complete framing-definite message, the others are arbitrary; `parse_all_pipeline`,
   `parse_all_pipeline_get`, `parse_all_pipeline_nomore`: the caller's loop "Reset, parse at the returned offset, until
   the buffer is exhausted" returns exactly the list of the moved stand-alone objects and ends at the end of the buffer.
+  The table is what ParseSIPMsg executes (`Sipsp.Proofs.AuditFixA`; the review noted that `body_*` were about the helper
+  `msgBody` only): `msg_is_body_table` (first line OK, header block OK at `h` ⇒ `parseSIPMsg = msgBody b h …`),
+  `ok_went_through_body_table`, `clen_framing`, `ok_with_content_length`: after a successful ParseSIPMsg with a parsed
+  Content-Length `n` and body parsing on, `h` = where ParseHeaders stopped, `h + n ≤ len`, the returned offset is `h + n`
+  and the body is `[h, h+n)`; with fewer bytes the verdict is MoreBytes at `h`.
   NOT proved: pipelines containing a text that is complete only in no-more-data mode (truncated body).
 -/
 import Sipsp.Model.Msg
 import Sipsp.Proofs.ShiftMsg
 import Sipsp.Proofs.PipelineAlone
+import Sipsp.Proofs.AuditFixA
 
 namespace Sipsp.C06
 open Sipsp
@@ -176,5 +182,28 @@ theorem parse_all_pipeline_get : type_of% @Sipsp.parseAll_pipeline_get := @Sipsp
 /-- **(3) in the no-more-data mode**: the messages are complete and framing-definite under `flags` (no-more-data not
     set); the loop may run with `flags'` = the same flags plus the no-more-data flag and returns the same list -/
 theorem parse_all_pipeline_nomore : type_of% @Sipsp.parseAll_pipeline_nomore := @Sipsp.parseAll_pipeline_nomore
+
+/-! ### the body table is what ParseSIPMsg executes (proved in `Sipsp.Proofs.AuditFixA`) -/
+
+/-- **the link**: on a new / Init / Reset object (state `init`), if ParseFLine says OK at `o1` and ParseHeaders
+    says OK at `h`, then ParseSIPMsg IS the body section `msgBody` entered at `h` with the parsed parts. -/
+theorem msg_is_body_table : type_of% @Sipsp.parseSIPMsg_eq_msgBody := @Sipsp.parseSIPMsg_eq_msgBody
+
+/-- conversely, an OK verdict of ParseSIPMsg on a state-`init` object went through exactly this path -/
+theorem ok_went_through_body_table : type_of% @Sipsp.parseSIPMsg_ok_path := @Sipsp.parseSIPMsg_ok_path
+
+/-- **Content-Length framing of ParseSIPMsg itself** (body parsing on, more data may come): the first line was OK,
+    ParseHeaders stopped with OK at `h` and its values object `hv` holds a parsed Content-Length `n = hv.clen.uiVal`.
+    Then: the verdict is OK iff `h + n ≤ len(buf)`; if so the returned offset is `h + n`, the body field is
+    `Set(h,h)` extended to `h + n`, and the returned object carries exactly `hv`; otherwise the verdict is MoreBytes
+    at `h` (nothing of the body consumed). -/
+theorem clen_framing : type_of% @Sipsp.parseSIPMsg_clen_framing := @Sipsp.parseSIPMsg_clen_framing
+
+/-- **the corollary in the property's words**: ParseSIPMsg on a state-`init` object returned OK with object `m'`, a
+    Content-Length header was parsed (`m'.pv.clen.parsed`), body parsing on, more data may come. Then there is the
+    offset `h` where ParseHeaders stopped (OK) such that the `n = m'.pv.clen.uiVal` body bytes are all there
+    (`h + n ≤ len(buf)`), the returned offset is `h + n` — the first byte after the body — and the body field is
+    `Set(h,h).Extend(h+n)`, i.e. `[h, h+n)` when it fits the 16-bit fields. -/
+theorem ok_with_content_length : type_of% @Sipsp.parseSIPMsg_ok_clen := @Sipsp.parseSIPMsg_ok_clen
 
 end Sipsp.C06
